@@ -8,7 +8,7 @@ p = "/verif/units/%s.rs" % unit
 L = open(p).read().split("\n")
 k = 0
 if "#" in fn: fn, k = fn.split("#"); k = int(k)
-starts = [i for i, l in enumerate(L) if re.match(r"//@@ fn .*\|\s*%s\s*\|" % re.escape(fn), l.strip())]
+starts = [i for i, l in enumerate(L) if re.match(r"//@@ (?:fn|const) .*\|\s*%s\s*(\||$)" % re.escape(fn), l.strip())]
 i = starts[k]
 j = next(x for x in range(i, len(L)) if L[x].strip() == "//@@ end")
 blk = ["//@+"] + ["    " + t for t in text.split("\n")] + ["//@-"]
